@@ -136,17 +136,24 @@ def inputs_only_relinked(units, R, roots=('create_patches', 'generate_merge_patc
         # locals loaded from the inputs
         derived = set(ins)
         changed = True
+
+        def fresh_value(rhs):
+            # a newly built tree is not part of an input, whatever it was built from
+            r0 = strip_casts(rhs)
+            cn0 = callee_name(r0) if r0.get('k') == 'call' else None
+            return cn0 is not None and (cn0.startswith('cJSON_Create') or cn0 in ('cJSON_Duplicate', 'generate_merge_patch') or
+                                        cn0.startswith('cJSONUtils_Generate'))
         while changed:
             changed = False
             for a in assignments(fn):
-                if is_ref(a['l']) and strip_casts(a['l'])['d'] not in derived:
+                if is_ref(a['l']) and strip_casts(a['l'])['d'] not in derived and not fresh_value(a['r']):
                     for x in walk(a['r']):
                         if x.get('k') == 'ref' and x.get('d') in derived and 'cJSON' in u.ty(strip_casts(a['l'])['ty'])['s']:
                             derived.add(strip_casts(a['l'])['d'])
                             changed = True
                             break
             for d in fn.locals():
-                if d['d'] not in derived and 'init' in d and 'cJSON' in u.ty(d['ty'])['s']:
+                if d['d'] not in derived and 'init' in d and 'cJSON' in u.ty(d['ty'])['s'] and not fresh_value(d['init']):
                     if any(x.get('k') == 'ref' and x.get('d') in derived for x in walk(d['init'])):
                         derived.add(d['d'])
                         changed = True
